@@ -273,12 +273,15 @@ def judgeCompute (prop : String) : P Verdict := do
       let mDelta := Float.sqrt m.stats.deltaSq
       -- rankings of tied scores depend on Go's unstable sort: stats are compared only without ties
       let spTied := (specRun r fuelCap).tied
-      let ctrl := o.iters == m.iters && o.nchecks == m.checks.length &&
-        (spTied || (o.length == m.stats.length && o.threshold == m.stats.threshold && o.ranking == m.stats.ranking))
-      let bitEq := ctrl && entriesBitEq o.t.entries m.t.entries && (spTied || floatShow o.deltaNorm == floatShow mDelta)
-      let exactTier := exactIterateOK r o.iters o.t
-      let corr := ctrl && o.t.dim == m.t.dim && entriesClose o.t.entries m.t.entries 1e-12 &&
-        (spTied || relClose o.deltaNorm mDelta 1e-9) && exactTier != some false
+      -- with a flat-tail requirement the STOP iteration itself depends on the rankings: in a tied run the
+      -- iteration count, and with it the returned iterate, are not comparable with the model's
+      let tiedStop := spTied && r.flat > 0
+      let ctrl := tiedStop || (o.iters == m.iters && o.nchecks == m.checks.length &&
+        (spTied || (o.length == m.stats.length && o.threshold == m.stats.threshold && o.ranking == m.stats.ranking)))
+      let bitEq := tiedStop || (ctrl && entriesBitEq o.t.entries m.t.entries && (spTied || floatShow o.deltaNorm == floatShow mDelta))
+      let exactTier := if tiedStop then none else exactIterateOK r o.iters o.t
+      let corr := tiedStop || (ctrl && o.t.dim == m.t.dim && entriesClose o.t.entries m.t.entries 1e-12 &&
+        (spTied || relClose o.deltaNorm mDelta 1e-9) && exactTier != some false)
       -- PROP per property
       let sp := specRun r fuelCap
       let finite := o.t.entries.all (·.val.isFinite)
